@@ -68,6 +68,33 @@ theorem hard_scan_writes_only_fresh_arrays (grow : Nat → Nat → Nat) (h : Hea
     rw [e] at f g
     exact ⟨f.1, f.2, g.2⟩
 
+/-- **The heap-level `HardwrapScanner.Scan` refines the value-level model** (`Model.Wrap.hardScan`, the one
+`hardwrap_is_split_at_newline` is about): on every heap, for every well-formed `cells` slice and every growth
+policy it returns false exactly when the model does, and otherwise the slices it leaves in `line` and `cells`
+denote the model's line and remaining cells.  With `hard_scan_writes_only_fresh_arrays`: same values *and* no
+write outside the fresh line. -/
+theorem hard_scan_refines (grow : Nat → Nat → Nat) (h : Heap) (st : HSt)
+    (hc : st.cells.arr < h.length) (wc : WFS h st.cells) :
+    (hardScanH grow h st).map (fun r => (read r.1 r.2.line, read r.1 r.2.cells)) = hardScan (read h st.cells) := by
+  have hlen := read_length wc
+  unfold hardScanH hardScan
+  by_cases h0 : st.cells.len = 0
+  · have : read h st.cells = [] := List.eq_nil_of_length_eq_zero (by rw [hlen]; exact h0)
+    simp [h0, this]
+  · have hne : read h st.cells ≠ [] := by
+      intro he; apply h0; rw [← hlen, he]; rfl
+    have hb : (st.cells.len == 0) = false := by simpa using h0
+    have he : (read h st.cells).isEmpty = false := by
+      cases hd : read h st.cells with
+      | nil => exact absurd hd hne
+      | cons _ _ => rfl
+    simp only [hb, Bool.false_eq_true, ↓reduceIte, he, Option.map_some]
+    have hpos : 0 < h.length := Nat.lt_of_le_of_lt (Nat.zero_le _) hc
+    obtain ⟨r1, r2⟩ := hardLoopH_refines grow st.cells h h.length hc wc st.cells.len 0 h emptySlice (by omega)
+      (Nat.le_refl _) (fun _ _ => rfl) (good_empty _ h hpos) ⟨by simp [emptySlice], by simp [emptySlice]⟩
+    rw [read_empty, List.drop_zero] at r1 r2
+    rw [r1, r2]
+
 /-- Non-vacuity: "a\nb" — the first `Scan` returns the line "a" in a new array, leaves `cells = "b"` as a
 sub-slice of the caller's array, and the caller's array is what it was. -/
 example :
